@@ -59,6 +59,7 @@ let () =
   let run : z list -> z list = match engine with
     | "addr" -> Model.run_addr oc
     | "pte" -> Model.run_pte oc
+    | "mach" -> Model.run_mach oc
     | _ -> failwith ("unknown engine " ^ engine) in
   let out = Buffer.create 65536 in
   (try
